@@ -82,16 +82,7 @@ func (m Math) Trunc(x interface{}) int {
 }
 
 func round(n float64) float64 {
-	if n >= 0.5 {
-		return math.Trunc(n + 0.5)
-	}
-	if n <= -0.5 {
-		return math.Trunc(n - 0.5)
-	}
-	if math.IsNaN(n) {
-		return math.NaN()
-	}
-	return 0
+	return math.Floor(n + 0.5)
 }
 
 // Round rounds a value to the nearest integer
